@@ -31,6 +31,8 @@ def run(ctx, res):
     inp = input_slice()
     LEN = inp.length()
     outs = I.run(d, [inp])
+    from ..core import arithmetic
+    arithmetic(res, I, d)
     vr = validated_recurrence(I, d)
     res.ob(vr is not None, "recurrence", d, "the validation loop is a recurrence over one offset with early error returns only")
     if vr is None:
